@@ -135,3 +135,26 @@ Proof.
   split; [split; exact I | exact I].
 Qed.
 Print Assumptions C01_world_example.
+
+(* the property's first sentence on the world: at every point of every history (under the hypotheses of C01_located) the
+   staked total equals the staked asset located toward the staker -- delivered, in flight, or refunded and still recorded --
+   minus what was set aside for submitted batches and swept to fees, plus the admin's re-basing *)
+Theorem C01_world_accounting : forall va dv av e i m s r evs,
+  instantiate va e i m = Ok (s, r) -> events_ok va dv av (all_ok va dv av) (world0 s) evs ->
+  let w := wrun va dv av (world0 s) evs in
+  let g := wghost va dv av (world0 s) g0 evs in
+  (Z.of_N (total_native (st (w_store w))) + Z.of_N (g_aside g) + Z.of_N (g_swept g)
+   = Z.of_N (located (staker_of s) (denom_of s) (w_packets w)) + g_adjN g)%Z.
+Proof.
+  intros va dv av e i m s r evs H Hok. cbv zeta.
+  assert (HI : I_batches s) by (eapply instantiate_I_batches; exact H).
+  assert (H0 : Led s (w_store (world0 s), g0)).
+  { unfold Led, g0, ZN. cbn. split; [exact HI | split; lia]. }
+  destruct (world_ledger va dv av s (world0 s) g0 evs H0) as [(_ & A & _) B].
+  pose proof (located_history va dv av (world0 s) evs (world0_inv va e i m s r H) (fun p Hp => match Hp with end) Hok) as L.
+  cbn [world0 w_store w_packets] in L. unfold located in L at 2. cbn in L.
+  assert (N0 : total_native (st s) = 0).
+  { unfold instantiate in H. inv_ok H. inversion H; subst. reflexivity. }
+  unfold ZN in A. rewrite N0 in A. cbn [g_fwd g0] in B. rewrite B in A. cbn [world0 w_store] in *. lia.
+Qed.
+Print Assumptions C01_world_accounting.
